@@ -109,3 +109,27 @@ Theorem C20_set_behaviour_supply_order l l' p : Permutation l l' -> Forall SetsL
   (forall arg texts, SetsModel.set_filter (SetsModel.SpecifierSet_of l p) arg texts = SetsModel.set_filter (SetsModel.SpecifierSet_of l' p) arg texts).
 Proof. exact (SetsSupply.supply_order_behaviour_perm l l' p). Qed.
 Print Assumptions C20_set_behaviour_supply_order.
+
+(* ---------------- caches: keyed platform probes, metadata attributes on the richer models ---------------- *)
+(* _get_musl_version is memoised PER EXECUTABLE PATH: every probe returns what the FIRST probe for the same path returned, probes of
+   different paths do not share an answer, a probe that raised is not cached - so a battery of probes is transparent exactly when each
+   path answers consistently *)
+Theorem C20_keyed_probe_cache l :
+  (forall i k now, nth_error l i = Some (k, now) ->
+     exists v, nth_error (PlatLoader.run_keyed [] l) i = Some v /\ PlatLoaderProofs.first_for k (firstn (S i) l) = Some v) /\
+  ((forall i j k a b, nth_error l i = Some (k, a) -> nth_error l j = Some (k, b) -> a = b) -> PlatLoader.run_keyed [] l = map snd l).
+Proof. destruct (C16.C16_keyed_probe_cache l) as (H1 & H2 & _). split; assumption. Qed.
+Print Assumptions C20_keyed_probe_cache.
+(* Metadata with raising component parsers (the model the correspondence runs): after a successful validated construction every
+   sequence of reads returns the attribute of the ORIGINAL raw data (AttributeError for a name that is no field) *)
+Theorem C20_metadata_reads3_after_validation O data ord s ks : MetaModel3.from_raw3_ord ord O true data = MetaModel.FOk s ->
+  MetaModel3.reads3 O s ks = map (MetaFacts3.attr3 O data) ks.
+Proof. exact (C17.C17_reads3_after_validation O data ord s ks). Qed.
+Print Assumptions C20_metadata_reads3_after_validation.
+(* ... and the caller's dict is untouched (heap model: from_raw copies the dict shallowly; reads never write to the caller's object) *)
+Theorem C20_metadata_caller_dict_untouched O w dl d ks : MetaBase.lookup dl (MetaHeap.w_dicts w) = Some d ->
+  let '(w1, hi) := MetaHeap.from_raw_h w dl in
+  let '(w', _, _) := MetaHeap.hreads O w1 hi ks in
+  MetaBase.lookup dl (MetaHeap.w_dicts w') = Some d /\ MetaHeap.w_vals w' = MetaHeap.w_vals w.
+Proof. exact (C17.C17_caller_dict_untouched O w dl d ks). Qed.
+Print Assumptions C20_metadata_caller_dict_untouched.
